@@ -226,7 +226,7 @@ func nativeReplay(L *Loaded, h *HarnessSpec, rv *ReplayVector, file string) (rep
 
 	ctx, cancel := context.WithTimeout(context.Background(), 10*time.Minute)
 	defer cancel()
-	cmd := exec.CommandContext(ctx, "go", "test", "-tags", "verif", "-vet=off", "-count=1", "-timeout", "120s", "-overlay", ovf, "-run", "^TestVerifReplay$", "./"+repoDirOf(h.Pkg))
+	cmd := exec.CommandContext(ctx, "go", "test", "-v", "-tags", "verif", "-vet=off", "-count=1", "-timeout", "120s", "-overlay", ovf, "-run", "^TestVerifReplay$", "./"+repoDirOf(h.Pkg))
 	cmd.Dir = L.repo
 	cmd.Env = append(defaultGoEnv(), "VERIF_REPLAY="+file)
 	var out bytes.Buffer
@@ -234,6 +234,7 @@ func nativeReplay(L *Loaded, h *HarnessSpec, rv *ReplayVector, file string) (rep
 	cmd.Stderr = &out
 	cmd.Run()
 	txt := out.String()
+	lastNativeOutput = txt
 	lines := strings.Split(strings.TrimSpace(txt), "\n")
 	if max := 40; len(lines) > max && os.Getenv("SYMGO_FULL_NATIVE_OUTPUT") == "" {
 		lines = append(lines[:25], lines[len(lines)-15:]...)
@@ -269,6 +270,9 @@ func nativeReplay(L *Loaded, h *HarnessSpec, rv *ReplayVector, file string) (rep
 	return false, "not reproduced: native run ended differently", tail
 }
 
+// lastNativeOutput is the complete output of the most recent native run.
+var lastNativeOutput string
+
 var panicCores = []string{"nil pointer dereference", "index out of range", "slice bounds out of range", "divide by zero",
 	"send on closed channel", "close of closed channel", "close of nil channel", "assignment to entry in nil map", "interface conversion", "negative WaitGroup counter", "unlock of unlocked"}
 
@@ -303,6 +307,7 @@ func report(L *Loaded, id, tier string, seed int, ps *PropSpec, results []*harne
 	var hsum []map[string]any
 	var samples []any
 	nativeReplays, nativeReproduced := 0, 0
+	validated, validationMismatch := 0, 0
 	knownPrinted := map[string]bool{}
 	replayDir := filepath.Join(L.verifDir, "replays", id)
 	if d := os.Getenv("SYMGO_SCRATCH_OUT"); d != "" {
@@ -428,6 +433,59 @@ func report(L *Loaded, id, tier string, seed int, ps *PropSpec, results []*harne
 		if len(vac) > 0 {
 			inconcl = append(inconcl, fmt.Sprintf("%s: assertion sites never reached: %v", r.Spec.Func, vac))
 		}
+		// encoder validation: passing paths must also pass natively, reaching the same labels
+		for k, v := range E.PassSamples {
+			rv := &ReplayVector{Harness: v.Harness, Pkg: r.Spec.Pkg, Property: id, Params: v.Params, Values: v.Model, Synctest: r.Spec.Synctest,
+				Kind: "pass", Trail: v.Trail, Hash: map[string]string{}}
+			for _, d := range v.Trail {
+				if d.K == 2 {
+					rv.Choices = append(rv.Choices, int(d.V))
+				}
+			}
+			if len(v.HashIns) > 0 {
+				hw, err := hashWitnesses(v)
+				if err != nil {
+					continue // placement not realisable by the witness search: nothing to compare
+				}
+				rv.Hash = hw
+			}
+			os.MkdirAll(filepath.Join(L.verifDir, ".work"), 0o755)
+			fname := filepath.Join(L.verifDir, ".work", fmt.Sprintf("validate-%d-%s-%d.json", os.Getpid(), v.Harness, k))
+			writeJSON(fname, rv)
+			_, status, _ := nativeReplay(L, r.Spec, rv, fname)
+			os.Remove(fname)
+			validated++
+			native := map[string]bool{}
+			for _, ln := range strings.Split(lastNativeOutput, "\n") {
+				if strings.HasPrefix(ln, "VERIF-REACH ") {
+					native[strings.TrimSpace(strings.TrimPrefix(ln, "VERIF-REACH "))] = true
+				}
+			}
+			var diff []string
+			for _, l := range v.Observed {
+				if !native[l] {
+					diff = append(diff, "-"+l)
+				}
+				delete(native, l)
+			}
+			for l := range native {
+				diff = append(diff, "+"+l)
+			}
+			if !strings.Contains(status, "native run passes") || len(diff) > 0 {
+				validationMismatch++
+				fmt.Printf("VALIDATION-MISMATCH harness=%s path=%s native=%q reach-diff=%v\n", v.Harness, trailString(v.Trail), status, diff)
+				if os.Getenv("SYMGO_KEEP_VALIDATION") != "" {
+					os.MkdirAll(replayDir, 0o755)
+					ls := strings.Split(strings.TrimSpace(lastNativeOutput), "\n")
+					if len(ls) > 25 {
+						ls = ls[len(ls)-25:]
+					}
+					fmt.Println(strings.Join(ls, "\n"))
+					writeJSON(filepath.Join(replayDir, fmt.Sprintf("validation-%s-%d.json", v.Harness, k)), rv)
+				}
+				inconcl = append(inconcl, fmt.Sprintf("%s: a passing path did not behave the same natively (%s, reach-diff %v)", v.Harness, status, diff))
+			}
+		}
 	}
 	if len(inconcl) > 0 && exit == 0 {
 		exit = 2
@@ -476,7 +534,9 @@ func report(L *Loaded, id, tier string, seed int, ps *PropSpec, results []*harne
 		"coverage": map[string]any{
 			"states":                        totalPaths,
 			"transitions":                   totalDec + totalQ,
-			"traces_validated_against_impl": nativeReplays,
+			"traces_validated_against_impl": nativeReplays + validated,
+			"passing_paths_rerun_natively":  validated,
+			"passing_paths_native_mismatch": validationMismatch,
 			"samples":                       samples,
 			"exhaustive":                    len(inconcl) == 0,
 			"explanation":                   "states = feasible execution paths of the real code explored symbolically (each path covers every value of the symbolic inputs satisfying its path condition); transitions = symbolic decisions taken plus SMT queries discharged; an assertion counts as non-trivial only when it reached the solver (not decided by constant folding)",
